@@ -567,6 +567,15 @@ fn arbitrary_tree_exclusivity<TC: ModelCfg>(args: &Args, rep: &Report) {
             pool.push(Bits((0..len).map(|i| v & (1 << (len - 1 - i)) != 0).collect()));
         }
     }
+    // the same interior labels with garbage bits beyond their length (labels are hashed as 32 bytes + length, so a
+    // server can build its tree with such labels; prefix tests must ignore the garbage)
+    let n_canonical = pool.len();
+    let junk: Vec<akd::NodeLabel> = pool.iter().map(|b| {
+        let mut nl = bits_nl(b);
+        nl.label_val[31] ^= 0x01;
+        nl.label_val[(b.len() / 8).min(31)] ^= 0x80 >> (b.len() % 8);
+        nl
+    }).collect();
     let max_leaves = 3usize;
     struct Flat {
         label: NodeLabel,
@@ -595,7 +604,7 @@ fn arbitrary_tree_exclusivity<TC: ModelCfg>(args: &Args, rep: &Report) {
         out
     }
     for k in 1..=max_leaves {
-        for shape in atrees(k, pool.len()) {
+        for shape in atrees(k, pool.len() * 2) {
             for perm in perms(leaf_labels.len(), k) {
                 let t = assign_leaves(&shape, &perm, &mut 0);
                 // the root itself: either this tree's top node IS the root's pair of children (if it is a Node: its label is
@@ -610,21 +619,22 @@ fn arbitrary_tree_exclusivity<TC: ModelCfg>(args: &Args, rep: &Report) {
     }
     rep.count(&format!("{}:arbitrary_trees", TC::NAME), work.len() as u64);
     let pool = &pool;
+    let junk = &junk;
     let leaf_labels = &leaf_labels;
     crate::explore::par_for(args.threads, &work, |_, (t, single)| {
         // flatten with hashes
         let mut flat: Vec<Flat> = vec![];
-        fn build<TC: ModelCfg>(t: &ATree, flat: &mut Vec<Flat>, pool: &[Bits], leaf_labels: &[Bits], leaf_value: &dyn Fn(usize) -> AzksValue, as_root: bool) -> usize {
+        fn build<TC: ModelCfg>(t: &ATree, flat: &mut Vec<Flat>, pool: &[Bits], junk: &[NodeLabel], leaf_labels: &[Bits], leaf_value: &dyn Fn(usize) -> AzksValue, as_root: bool) -> usize {
             match t {
                 ATree::Leaf(x) => {
                     flat.push(Flat { label: bits_nl(&leaf_labels[*x]), value: leaf_value(*x), kids: None, parent: None });
                     flat.len() - 1
                 }
                 ATree::Node(i, a, b) => {
-                    let ia = build::<TC>(a, flat, pool, leaf_labels, leaf_value, false);
-                    let ib = build::<TC>(b, flat, pool, leaf_labels, leaf_value, false);
+                    let ia = build::<TC>(a, flat, pool, junk, leaf_labels, leaf_value, false);
+                    let ib = build::<TC>(b, flat, pool, junk, leaf_labels, leaf_value, false);
                     let v = TC::compute_parent_hash_from_children(&flat[ia].value, &flat[ia].label.value::<TC>(), &flat[ib].value, &flat[ib].label.value::<TC>());
-                    let label = if as_root { NodeLabel::root() } else { bits_nl(&pool[*i]) };
+                    let label = if as_root { NodeLabel::root() } else if *i < pool.len() { bits_nl(&pool[*i]) } else { junk[*i - pool.len()] };
                     flat.push(Flat { label, value: v, kids: Some((ia, ib)), parent: None });
                     let me = flat.len() - 1;
                     flat[ia].parent = Some((me, Direction::Left));
@@ -639,14 +649,14 @@ fn arbitrary_tree_exclusivity<TC: ModelCfg>(args: &Args, rep: &Report) {
         let mut top_child: Option<(usize, Direction)> = None;
         match single {
             None => {
-                let r = build::<TC>(t, &mut flat, pool, leaf_labels, &leaf_value, true);
+                let r = build::<TC>(t, &mut flat, pool, junk, leaf_labels, &leaf_value, true);
                 let (a, b) = flat[r].kids.unwrap();
                 root_left = AzksElement { label: flat[a].label, value: flat[a].value };
                 root_right = AzksElement { label: flat[b].label, value: flat[b].value };
                 root_idx = Some(r);
             }
             Some(side) => {
-                let c = build::<TC>(t, &mut flat, pool, leaf_labels, &leaf_value, false);
+                let c = build::<TC>(t, &mut flat, pool, junk, leaf_labels, &leaf_value, false);
                 let ce = AzksElement { label: flat[c].label, value: flat[c].value };
                 if *side {
                     root_left = empty;
@@ -726,7 +736,7 @@ fn arbitrary_tree_exclusivity<TC: ModelCfg>(args: &Args, rep: &Report) {
                 rep.violation(
                     format!("{}/arbitrary_tree/presence_and_absence_of_one_label_both_verify", TC::NAME),
                     json!({"tree": format!("{t:?}"), "root_single_child_side": format!("{single:?}"), "label": xl.show(), "absence_anchored_at": absent,
-                           "leaf_labels": leaf_labels.iter().map(|l| l.prefix(4).show()).collect::<Vec<_>>(), "interior_pool": pool.iter().map(|b| b.show()).collect::<Vec<_>>()}),
+                           "leaf_labels": leaf_labels.iter().map(|l| l.prefix(4).show()).collect::<Vec<_>>(), "interior_pool": pool.iter().map(|b| b.show()).collect::<Vec<_>>(), "interior_label_indices_at_or_above": format!("{n_canonical} carry garbage bits beyond their length")}),
                 );
             } else {
                 rep.distinct(format!("{}:arb:{}:{}", TC::NAME, !present.is_empty(), !absent.is_empty()));
